@@ -19,6 +19,123 @@ import (
 
 const marker = "\x1bjson" // errors.jsonErrorMarker
 
+// RAW BYTES IN TEXTS. Error texts and the strings of an object are Go strings: any bytes, not necessarily UTF-8 (a
+// file name, a key, a Latin-1 message of another system). A case must survive its JSON form (replay, hash), and
+// encoding/json replaces invalid bytes by U+FFFD; so inside a Case every text is valid UTF-8 and a rune of the private
+// range U+F780..U+F7FF stands for the single raw byte 0x80..0xFF (rune - 0xF700). Raw() gives the text that is handed
+// to the library. A genuine U+FFFD in a text is written as itself.
+const rawBase = 0xF700
+
+// Esc is the inverse of Raw for a byte string: every byte >= 0x80 becomes its private-range rune.
+func Esc(raw []byte) string {
+	var sb strings.Builder
+	for _, c := range raw {
+		if c >= 0x80 {
+			sb.WriteRune(rune(rawBase + int(c)))
+		} else {
+			sb.WriteByte(c)
+		}
+	}
+	return sb.String()
+}
+
+func hasEsc(s string) bool { return strings.Contains(s, "\xef\x9e") || strings.Contains(s, "\xef\x9f") }
+
+// Raw decodes the private-range runes of a case text into the raw bytes they stand for.
+func Raw(s string) string {
+	if !hasEsc(s) {
+		return s
+	}
+	var sb strings.Builder
+	for _, r := range s {
+		if r >= rawBase+0x80 && r <= rawBase+0xFF {
+			sb.WriteByte(byte(r - rawBase))
+		} else {
+			sb.WriteRune(r)
+		}
+	}
+	return sb.String()
+}
+
+func rawObj(o *Obj) *Obj {
+	if o == nil {
+		return nil
+	}
+	n := &Obj{S: Raw(o.S), N: o.N, In: rawObj(o.In)}
+	if o.L != nil {
+		n.L = make([]string, len(o.L))
+		for i, x := range o.L {
+			n.L[i] = Raw(x)
+		}
+	}
+	if o.M != nil {
+		n.M = make(map[string]int, len(o.M))
+		for k, v := range o.M {
+			n.M[Raw(k)] = v
+		}
+	}
+	if o.X != nil {
+		n.X = make(map[string]string, len(o.X))
+		for k, v := range o.X {
+			n.X[Raw(k)] = Raw(v)
+		}
+	}
+	return n
+}
+
+func objAny(o *Obj, f func(string) bool) bool {
+	if o == nil {
+		return false
+	}
+	if f(o.S) {
+		return true
+	}
+	for _, x := range o.L {
+		if f(x) {
+			return true
+		}
+	}
+	for k := range o.M {
+		if f(k) {
+			return true
+		}
+	}
+	for k, v := range o.X {
+		if f(k) || f(v) {
+			return true
+		}
+	}
+	return objAny(o.In, f)
+}
+
+// rawChain returns the chain with every text decoded (the chain itself when no text holds an escaped byte).
+func rawChain(ch Chain) Chain {
+	dirty := ch.Obj != nil && objAny(ch.Obj, hasEsc)
+	for _, w := range ch.Wraps {
+		for _, t := range w.texts() {
+			dirty = dirty || hasEsc(t)
+		}
+	}
+	if !dirty {
+		return ch
+	}
+	ws := make([]Wrap, len(ch.Wraps))
+	for i, w := range ch.Wraps {
+		w.Pre, w.Post, w.Mid = Raw(w.Pre), Raw(w.Post), Raw(w.Mid)
+		if len(w.Sides) > 0 {
+			sides := make([]Side, len(w.Sides))
+			for j, sd := range w.Sides {
+				sides[j] = Side{Kind: sd.Kind, Text: Raw(sd.Text)}
+			}
+			w.Sides = sides
+		}
+		ws[i] = w
+	}
+	ch.Wraps = ws
+	ch.Obj = rawObj(ch.Obj)
+	return ch
+}
+
 // Class is a named general error class.
 type Class struct {
 	Name string
@@ -234,6 +351,156 @@ type Chain struct {
 	// ObjTarget > 0 (needs an object and an "obj.*" Pad place; takes precedence over Target): the object is padded
 	// until its JSON text - what EmbedObject puts between the markers - is exactly ObjTarget bytes long.
 	ObjTarget int `json:"obj_target,omitempty"`
+	// Into (one of IntoKinds, needs an object): at every stage the object is first extracted into a target of this
+	// kind, compared, and then OVERWRITTEN in place by the caller - what ExtractObject filled in belongs to the caller -
+	// before the other checks of the stage and all later stages run. "" = only the plain extraction into a fresh *Obj.
+	Into string `json:"into,omitempty"`
+}
+
+// IntoKinds are the kinds of extraction targets:
+//
+//	obj     *Obj, a fresh one per stage
+//	any     *any (interface{}), fresh per stage
+//	map     *map[string]any, fresh per stage
+//	raw     *json.RawMessage, ONE variable re-used for all stages of the chain, nil at first
+//	rawcap  the same, starting with other content and spare capacity (a re-used buffer)
+//	blob    a named []byte type whose UnmarshalJSON keeps a copy of the JSON text (as json.Unmarshaler asks), re-used
+var IntoKinds = []string{"obj", "any", "map", "raw", "rawcap", "blob"}
+
+// blob keeps the JSON text it is asked to decode; it copies it, as the documentation of json.Unmarshaler demands.
+type blob []byte
+
+func (b *blob) UnmarshalJSON(d []byte) error { *b = append((*b)[:0], d...); return nil }
+
+// sink is the caller's extraction target of a chain.
+type sink struct {
+	kind string
+	raw  json.RawMessage
+	bl   blob
+}
+
+func newSink(kind string) *sink {
+	s := &sink{kind: kind}
+	switch kind {
+	case "obj", "any", "map", "raw", "blob":
+	case "rawcap":
+		s.raw = append(make(json.RawMessage, 0, 4096), `{"stale":"left over from an earlier use"}`...)
+	default:
+		panic("bad extraction target kind " + kind)
+	}
+	return s
+}
+
+// viaAny is the JSON text re-rendered through interface{} values by encoding/json itself (key order and number
+// rendering of that path); ok=false if the text is not JSON.
+func viaAny(text []byte) ([]byte, bool) {
+	var v any
+	if json.Unmarshal(text, &v) != nil {
+		return nil, false
+	}
+	out, err := json.Marshal(v)
+	return out, err == nil
+}
+
+func scribbleObj(o *Obj) {
+	for depth := 0; o != nil && depth < 8; depth++ {
+		o.S, o.N = "overwritten by the caller", -42
+		for i := range o.L {
+			o.L[i] = "overwritten"
+		}
+		for k := range o.M {
+			o.M[k] = -42
+		}
+		for k := range o.X {
+			o.X[k] = "overwritten"
+		}
+		o = o.In
+	}
+}
+
+func scribbleAny(v any, depth int) {
+	if depth > 8 {
+		return
+	}
+	switch x := v.(type) {
+	case map[string]any:
+		for k, e := range x {
+			scribbleAny(e, depth+1)
+			x[k] = "overwritten"
+		}
+		x["added by the caller"] = true
+	case []any:
+		for i, e := range x {
+			scribbleAny(e, depth+1)
+			x[i] = "overwritten"
+		}
+	}
+}
+
+// check extracts the object of e into the target, compares it with the embedded one - decoded by encoding/json into a
+// target of the same kind - and then overwrites the extracted value in place.
+func (s *sink) check(stage string, e error, want *Obj, wantJSON []byte) *vstat.Violation {
+	var ok bool
+	var got, ref []byte
+	refOK := true
+	var scribble func()
+	switch s.kind {
+	case "obj":
+		var o Obj
+		ok = gerrors.ExtractObject(e, &o)
+		got, _ = json.Marshal(&o)
+		ref = wantJSON
+		scribble = func() { scribbleObj(&o) }
+	case "any":
+		var a any
+		ok = gerrors.ExtractObject(e, &a)
+		got, _ = json.Marshal(a)
+		ref, refOK = viaAny(wantJSON)
+		scribble = func() { scribbleAny(a, 0) }
+	case "map":
+		var m map[string]any
+		ok = gerrors.ExtractObject(e, &m)
+		got, _ = json.Marshal(m)
+		ref, refOK = viaAny(wantJSON)
+		scribble = func() { scribbleAny(m, 0) }
+	case "raw", "rawcap":
+		ok = gerrors.ExtractObject(e, &s.raw)
+		if ok {
+			if got, ok = viaAny(s.raw); !ok {
+				return vstat.V("errors:extract-different-object", "%s: ExtractObject into a *json.RawMessage (%s) returned true with text %q, which is not JSON (embedded %s)", stage, s.kind, clip(string(s.raw)), clip(js(want)))
+			}
+		}
+		ref, refOK = viaAny(wantJSON)
+		scribble = func() {
+			for i := range s.raw {
+				s.raw[i] = '#'
+			}
+		}
+	case "blob":
+		ok = gerrors.ExtractObject(e, &s.bl)
+		if ok {
+			if got, ok = viaAny(s.bl); !ok {
+				return vstat.V("errors:extract-different-object", "%s: ExtractObject handed a json.Unmarshaler the text %q, which is not JSON (embedded %s)", stage, clip(string(s.bl)), clip(js(want)))
+			}
+		}
+		ref, refOK = viaAny(wantJSON)
+		scribble = func() {
+			for i := range s.bl {
+				s.bl[i] = '#'
+			}
+		}
+	}
+	if !refOK {
+		panic("generator bug: the JSON form of the object is not JSON")
+	}
+	if !ok {
+		return vstat.V("errors:extract-failed", "%s: ExtractObject into a target of kind %s returned false for (%d bytes) %q (embedded %s)", stage, s.kind, len(e.Error()), clip(e.Error()), clip(js(want)))
+	}
+	if !bytes.Equal(got, ref) {
+		return vstat.V("errors:extract-different-object", "%s: ExtractObject into a target of kind %s returned %s, encoding/json decodes the embedded object %s into such a target as %s (message %q)", stage, s.kind, clip(string(got)), clip(js(want)), clip(string(ref)), clip(e.Error()))
+	}
+	scribble()
+	return nil
 }
 
 // Case is a wrapping chain (Kind "chain", the inline Chain fields), a batch of chains (Kind "batch": all
@@ -281,6 +548,12 @@ type Info struct {
 	DeepFork  bool // a chain of >= 100 links with a several-%w / Join node at least 10 links away from both ends
 	ObjLen    int  // longest JSON text of an embedded object
 	ObjEdge   bool // ... ending within 8 bytes below .. 2 bytes above a multiple of 512
+	Into      map[string]bool // kinds of extraction targets that were filled and then overwritten by the caller
+	TextRaw   bool            // a wrap text holds bytes that are not valid UTF-8
+	TextFFFD  bool            // a wrap text holds a genuine U+FFFD
+	ObjRaw    bool            // a string of an embedded object holds bytes that are not valid UTF-8 (its JSON text has U+FFFD there)
+	ObjFFFD   bool            // a string of an embedded object holds a genuine U+FFFD
+	RawAndObj bool            // one chain has an invalid byte in a wrap text and U+FFFD (genuine or from an invalid byte) in its object's JSON text
 }
 
 // Run executes the case.
@@ -407,6 +680,8 @@ type built struct {
 	e        error // finished chain
 	g, g2    error // GRPCWrap(e), GRPCWrap(GRPCWrap(e))
 	repaired bool
+	lossy    bool  // a string of the object is not valid UTF-8: its JSON text holds U+FFFD in place of the invalid bytes
+	sink     *sink // the caller's extraction target (Into), nil: none
 }
 
 func validate(ch Chain) {
@@ -423,10 +698,13 @@ func validate(ch Chain) {
 	if ch.Embed >= 0 && ch.Obj == nil {
 		panic("embed without an object")
 	}
+	if ch.Into != "" && ch.Embed < 0 {
+		panic("extraction target without an object")
+	}
 	for _, w := range ch.Wraps {
 		for _, t := range w.texts() {
-			if !utf8.ValidString(t) || strings.Contains(t, marker) {
-				panic("wrap texts must be valid UTF-8 without the complete marker")
+			if strings.Contains(t, marker) {
+				panic("wrap texts must not hold the complete marker")
 			}
 		}
 		if w.Kind != LFmt && w.Kind != LJoin && w.Kind != LGRPC {
@@ -563,14 +841,45 @@ func embedName(ch Chain) string {
 func runChains(chs []Chain, eager bool, info *Info) *vstat.Violation {
 	bs := make([]*built, len(chs))
 	var texts []string
+	notValid := func(s string) bool { return !utf8.ValidString(s) }
+	hasFFFD := func(s string) bool { return strings.Contains(s, "\uFFFD") }
 	for n, ch := range chs {
+		for _, w := range ch.Wraps {
+			for _, t := range w.texts() {
+				if !utf8.ValidString(t) {
+					panic("the texts of a case are valid UTF-8 (raw bytes are written as U+F780..U+F7FF)")
+				}
+			}
+		}
+		ch = rawChain(ch) // from here on the texts are what the library gets: raw bytes
 		validate(ch)
+		textRaw := false
+		for _, w := range ch.Wraps {
+			for _, t := range w.texts() {
+				textRaw = textRaw || notValid(t)
+				info.TextFFFD = info.TextFFFD || hasFFFD(t)
+			}
+		}
+		info.TextRaw = info.TextRaw || textRaw
 		for k, w := range ch.Wraps {
 			texts = append(texts, w.texts()...)
 			noteLevel(info, ch, k, w)
 		}
 		b := &built{ch: padded(ch), cls: classByName(ch.Class)}
 		bs[n] = b
+		if ch.Embed >= 0 {
+			b.lossy = objAny(ch.Obj, notValid)
+			fffd := objAny(ch.Obj, hasFFFD)
+			info.ObjRaw, info.ObjFFFD = info.ObjRaw || b.lossy, info.ObjFFFD || fffd
+			info.RawAndObj = info.RawAndObj || textRaw && (b.lossy || fffd)
+			if ch.Into != "" {
+				b.sink = newSink(ch.Into)
+				if info.Into == nil {
+					info.Into = map[string]bool{}
+				}
+				info.Into[ch.Into] = true
+			}
+		}
 		if ch.Target > 0 || (ch.ObjTarget > 0 && b.ch.Embed >= 0) {
 			info.Pads = append(info.Pads, "pad:"+strings.SplitN(ch.Pad, ":", 2)[0])
 		}
@@ -724,7 +1033,27 @@ func checkChain(b *built, info *Info) *vstat.Violation {
 	}
 	where := func() string { return fmt.Sprintf("class %s, chain message (%d bytes) %q", c.Class, len(msg), clip(msg)) }
 
+	// own: the caller's own target is filled, compared and overwritten before the other checks of the stage
+	own := func(stage string, e error) *vstat.Violation {
+		if b.sink == nil {
+			return nil
+		}
+		return b.sink.check(stage, e, c.Obj, b.wantJSON)
+	}
 	if c.Embed >= 0 {
+		if b.lossy {
+			// strings of the object hold invalid UTF-8: json.Marshal writes U+FFFD for such bytes (and two map keys may
+			// coincide then), so what was embedded is the JSON text, not the Go value. The reference for every later
+			// stage is what the library itself extracts from the result of EmbedObject.
+			var base Obj
+			if !gerrors.ExtractObject(b.eEmb, &base) {
+				return vstat.V("errors:extract-failed", "result of EmbedObject: ExtractObject returned false for (%d bytes) %q (embedded %s)", len(b.eEmb.Error()), clip(b.eEmb.Error()), clip(js(c.Obj)))
+			}
+			b.wantJSON, _ = json.Marshal(&base)
+		}
+		if v := own("result of EmbedObject", b.eEmb); v != nil {
+			return v
+		}
 		if v := extractCheck("result of EmbedObject", b.eEmb, c.Obj, b.wantJSON); v != nil {
 			return v
 		}
@@ -735,6 +1064,9 @@ func checkChain(b *built, info *Info) *vstat.Violation {
 				return v
 			}
 			panic("generator bug: marker count")
+		}
+		if v := own("after fmt wrapping", e); v != nil {
+			return v
 		}
 		if v := extractCheck("after fmt wrapping", e, c.Obj, b.wantJSON); v != nil {
 			return v
@@ -761,11 +1093,29 @@ func checkChain(b *built, info *Info) *vstat.Violation {
 		return vstat.V("errors:grpcwrap-not-idempotent", "code changed from %v to %v by the second GRPCWrap; %s", c1, c2, where())
 	}
 	if c.Embed >= 0 {
+		if v := own("after GRPCWrap", g); v != nil {
+			return v
+		}
 		if v := extractCheck("after GRPCWrap", g, c.Obj, b.wantJSON); v != nil {
+			return v
+		}
+		if v := own("after GRPCWrap twice", g2); v != nil {
 			return v
 		}
 		if v := extractCheck("after GRPCWrap twice", g2, c.Obj, b.wantJSON); v != nil {
 			return v
+		}
+		// the caller's writes must not have reached the errors: everything once more, from the innermost error outwards
+		if b.sink != nil {
+			for _, st := range []struct {
+				stage string
+				e     error
+			}{{"result of EmbedObject, after the extracted values were overwritten", b.eEmb}, {"after fmt wrapping, after the extracted values were overwritten", e},
+				{"after GRPCWrap, after the extracted values were overwritten", g}, {"a fresh GRPCWrap of the chain, after the extracted values were overwritten", gerrors.GRPCWrap(e)}} {
+				if v := extractCheck(st.stage, st.e, c.Obj, b.wantJSON); v != nil {
+					return v
+				}
+			}
 		}
 	}
 	return nil
@@ -781,7 +1131,11 @@ func runCode(c Case, info *Info) *vstat.Violation {
 	code := codes.Code(c.Code)
 	info.Code = code.String()
 	info.Hazards = hazards(c.Msg)
-	e := status.Error(code, c.Msg)
+	if !utf8.ValidString(Raw(c.Msg)) {
+		info.TextRaw = true
+	}
+	msg := Raw(c.Msg)
+	e := status.Error(code, msg)
 	if code == codes.OK {
 		info.OK = true // status.Error(OK, …) is nil; the statement says nothing about it
 		return nil
@@ -793,10 +1147,10 @@ func runCode(c Case, info *Info) *vstat.Violation {
 		}
 	}
 	if len(hits) != 1 {
-		return vstat.V("errors:code-maps-to-not-exactly-one-class", "status.Error(%v, %q) Is %d classes %v, want exactly one", code, c.Msg, len(hits), hits)
+		return vstat.V("errors:code-maps-to-not-exactly-one-class", "status.Error(%v, %q) Is %d classes %v, want exactly one", code, msg, len(hits), hits)
 	}
 	if gerrors.FromGRPCError(e) == nil {
-		return vstat.V("errors:code-maps-to-nil", "FromGRPCError(status.Error(%v, %q)) is nil for a non-OK code", code, c.Msg)
+		return vstat.V("errors:code-maps-to-nil", "FromGRPCError(status.Error(%v, %q)) is nil for a non-OK code", code, msg)
 	}
 	return nil
 }
@@ -838,6 +1192,9 @@ func (i Info) Classes() []string {
 			c = append(c, "batch_grpcwrap_after_all_built")
 		}
 	default:
+		if i.TextRaw {
+			c = append(c, "code_message_not_valid_utf8")
+		}
 		return append(append(c, "code", "code:"+i.Code), i.Hazards...)
 	}
 	if i.Repaired {
@@ -901,6 +1258,14 @@ func (i Info) Classes() []string {
 		c = append(c, "objjson:504..2047")
 	}
 	add(i.ObjEdge, "objjson_ends_8_below_to_2_above_a_multiple_of_512")
+	for _, k := range IntoKinds {
+		add(i.Into[k], "extracted_into_"+k+"_then_overwritten_by_the_caller")
+	}
+	add(i.TextRaw, "wrap_text_not_valid_utf8")
+	add(i.TextFFFD, "wrap_text_has_U+FFFD")
+	add(i.ObjRaw, "object_string_not_valid_utf8")
+	add(i.ObjFFFD, "object_string_has_U+FFFD")
+	add(i.RawAndObj, "wrap_text_not_valid_utf8_and_U+FFFD_in_object_json")
 	c = append(c, i.Pads...)
 	return append(c, i.Hazards...)
 }
